@@ -8,6 +8,10 @@ ID = "C02"
 _EXH = _q(32 * 10000, 32 * 10000 * 4 * 7)
 
 
+# a case takes ~30 microseconds; one that runs 20 s of wall time (80 s when reproduced alone) is a hang of Execute
+_TMO = ["--case_timeout", "20"]
+
+
 def _post(ctx):
     """The small scope counts as enumerated only if every case index of the exh job was decoded and judged."""
     want = _EXH[ctx["tier"]]
@@ -53,8 +57,8 @@ PROP = {
                         "'exhaustive sub-space complete'); the property as a whole is explored by sampling"),
     "post": _post,
     "jobs": [
-        {"mon": "mon_c02", "cfg": "plain", "cases": _q(600000, 12000000)},
-        {"mon": "mon_c02", "cfg": "plain", "cases": _EXH, "args": ["--mode", "exh"], "seed_off": 0},
-        {"mon": "mon_c02", "cfg": "portable", "cases": _q(150000, 3000000), "seed_off": 2000003},
+        {"mon": "mon_c02", "cfg": "plain", "cases": _q(600000, 12000000), "args": _TMO},
+        {"mon": "mon_c02", "cfg": "plain", "cases": _EXH, "args": ["--mode", "exh"] + _TMO, "seed_off": 0},
+        {"mon": "mon_c02", "cfg": "portable", "cases": _q(150000, 3000000), "args": _TMO, "seed_off": 2000003},
     ],
 }
